@@ -25,6 +25,7 @@ type view struct {
 	invoke, newstream          *Event
 	closesend                  *Event
 	terminal                   *Event
+	trim                       bool // compare metadata as HTTP header rules deliver it (see blankLimit)
 	single                     bool // single-response kind
 	ctxSeq                     int
 	cutSeq                     int
@@ -93,6 +94,8 @@ func (v *view) findTerminal() {
 		}
 	case v.newstream != nil && v.newstream.RSeq != 0 && !v.newstream.Err.IsNil():
 		v.terminal = v.newstream
+	case v.stubFail() != nil:
+		v.terminal = v.stubFail()
 	case v.single:
 		for _, ev := range v.cRecv {
 			if ev.RSeq != 0 {
@@ -108,6 +111,21 @@ func (v *view) findTerminal() {
 			}
 		}
 	}
+}
+
+// stubFail: the request phase of a server-stream call made the way generated
+// stubs make it (SendMsg, CloseSend) failed; that error is what the caller of
+// the stub gets, with no stream to ask for anything else.
+func (v *view) stubFail() *Event {
+	for _, ev := range v.ev {
+		if ev.Side == 'c' && (ev.Op == "send" || ev.Op == "closesend") && ev.Flags["stub"] == "1" && ev.RSeq != 0 && ev.Err != nil && !ev.Err.IsNil() {
+			if ev.Msg != nil && ev.Msg.Kind == 4 {
+				return nil // the caller's own request cannot be encoded: nothing to compare with
+			}
+			return ev
+		}
+	}
+	return nil
 }
 
 func (v *view) sig(prop, clause string) string {
@@ -135,7 +153,7 @@ func okTerminal(ev *Event, single bool) bool {
 	if ev.Op == "invoke" {
 		return ev.Err.IsNil()
 	}
-	if ev.Op == "newstream" {
+	if ev.Op == "newstream" || ev.Op == "send" || ev.Op == "closesend" {
 		return false
 	}
 	if single {
@@ -670,6 +688,9 @@ func (v *view) incomingOK(have metadata.MD) (bool, string) {
 			creds[kv.K] = []string{string(kv.V)} // a map: the last value of a key wins
 		}
 	}
+	if v.trim {
+		caller, creds = trimMD(caller), trimMD(creds)
+	}
 	keys := map[string]bool{}
 	for k := range caller {
 		keys[k] = true
@@ -717,6 +738,35 @@ func (v *view) expectedHeaders() metadata.MD {
 	return md
 }
 
+// trimMD: the metadata as HTTP header rules deliver it - blanks at the ends
+// of (non-binary) values are not part of a header field's value.
+func trimMD(md metadata.MD) metadata.MD {
+	out := metadata.MD{}
+	for k, vs := range md {
+		bin := strings.HasSuffix(k, "-bin")
+		for _, x := range vs {
+			if !bin {
+				x = strings.Trim(x, " \t")
+			}
+			out[k] = append(out[k], x)
+		}
+	}
+	return out
+}
+
+// blankLimit: over HTTP, would the metadata be complete if blanks at the ends
+// of the expected values did not count? (a limit of the HTTP wire format that
+// is reported as a known finding, not hidden)
+func (v *view) blankLimit(have, want metadata.MD) string {
+	if v.r.Transport != THTTP {
+		return ""
+	}
+	if ok, _ := mdContains(have, trimMD(want)); ok {
+		return "|md-outer-blanks"
+	}
+	return ""
+}
+
 func (v *view) expectedTrailers() metadata.MD {
 	md := metadata.MD{}
 	for _, ev := range v.tlrSets {
@@ -731,7 +781,15 @@ func (v *view) oracleC03() {
 	// (i) request metadata reaches the handler
 	if v.hStart != nil {
 		if ok, why := v.incomingOK(v.hStart.MD); !ok {
-			v.fail("C03", "request-metadata", "handler's incoming metadata lacks or alters the caller's outgoing metadata: %s", why)
+			lim := ""
+			if v.r.Transport == THTTP {
+				v.trim = true
+				if ok2, _ := v.incomingOK(v.hStart.MD); ok2 {
+					lim = "|md-outer-blanks"
+				}
+				v.trim = false
+			}
+			v.fail("C03", "request-metadata"+lim, "handler's incoming metadata lacks or alters the caller's outgoing metadata: %s", why)
 		}
 	}
 	// (ii) header-setting calls succeed before headers are sent and fail after
@@ -814,21 +872,21 @@ func (v *view) oracleC03() {
 			continue
 		}
 		if ok, why := mdContains(hv.MD, expH); !ok {
-			v.fail("C03", "headers-incomplete-via-Header", "Header() at seq %d (after first message: %v): %s", hv.Seq, after, why)
+			v.fail("C03", "headers-incomplete-via-Header"+v.blankLimit(hv.MD, expH), "Header() at seq %d (after first message: %v): %s", hv.Seq, after, why)
 		}
 		for i, o := range hv.OptH {
 			// the call-option targets are only required to be filled by the
 			// end of the call (grpc-go fills them when a stream finishes)
 			if ok, why := mdContains(o, expH); !ok && afterOK {
-				v.fail("C03", "headers-incomplete-via-option", "grpc.Header option #%d at seq %d: %s", i, hv.Seq, why)
+				v.fail("C03", "headers-incomplete-via-option"+v.blankLimit(o, expH), "grpc.Header option #%d at seq %d: %s", i, hv.Seq, why)
 			}
 		}
 	}
 	if t == nil || v.hReturn == nil || v.hReturn.Seq > t.RSeq {
 		return
 	}
-	if t.Op == "newstream" {
-		return
+	if t.Op == "newstream" || t.Op == "send" || t.Op == "closesend" {
+		return // no stream was handed to the caller
 	}
 	strict := okT || !v.disturbedBefore(t.RSeq)
 	if !strict || v.clientSideFailure() {
@@ -847,8 +905,8 @@ func (v *view) oracleC03() {
 	// (iv)/(v) at the final status trailers and headers are all there
 	for i, o := range t.OptT {
 		if ok, why := mdContains(o, expT); !ok {
-			v.fail("C03", "trailers-incomplete-via-option|"+tag, "grpc.Trailer option #%d at final status (seq %d, %s): %s", i, t.RSeq, t.Err, why)
-			if v.ctxDoneBefore(t.RSeq) && okT {
+			v.fail("C03", "trailers-incomplete-via-option|"+tag+v.blankLimit(o, expT), "grpc.Trailer option #%d at final status (seq %d, %s): %s", i, t.RSeq, t.Err, why)
+			if v.ctxDoneBefore(t.RSeq) && okT && v.blankLimit(o, expT) == "" {
 				v.fail("C04", "success-with-missing-data", "after the context ended the call reported success with trailers missing: %s", why)
 			}
 			break
@@ -856,8 +914,8 @@ func (v *view) oracleC03() {
 	}
 	for i, o := range t.OptH {
 		if ok, why := mdContains(o, expH); !ok {
-			v.fail("C03", "headers-incomplete-via-option|"+tag, "grpc.Header option #%d at final status (seq %d, %s): %s", i, t.RSeq, t.Err, why)
-			if v.ctxDoneBefore(t.RSeq) && okT {
+			v.fail("C03", "headers-incomplete-via-option|"+tag+v.blankLimit(o, expH), "grpc.Header option #%d at final status (seq %d, %s): %s", i, t.RSeq, t.Err, why)
+			if v.ctxDoneBefore(t.RSeq) && okT && v.blankLimit(o, expH) == "" {
 				v.fail("C04", "success-with-missing-data", "after the context ended the call reported success with headers missing: %s", why)
 			}
 			break
@@ -865,13 +923,13 @@ func (v *view) oracleC03() {
 	}
 	if t.Op == "recv" {
 		if ok, why := mdContains(t.MD2, expT); !ok {
-			v.fail("C03", "trailers-incomplete-via-Trailer|"+tag, "Trailer() right after the final status (seq %d, %s): %s", t.RSeq, t.Err, why)
+			v.fail("C03", "trailers-incomplete-via-Trailer|"+tag+v.blankLimit(t.MD2, expT), "Trailer() right after the final status (seq %d, %s): %s", t.RSeq, t.Err, why)
 		}
 	}
 	for _, tv := range v.cTrailer {
 		if tv.RSeq != 0 && tv.Seq > t.RSeq {
 			if ok, why := mdContains(tv.MD, expT); !ok {
-				v.fail("C03", "trailers-incomplete-via-Trailer|"+tag, "Trailer() at seq %d after the final status: %s", tv.Seq, why)
+				v.fail("C03", "trailers-incomplete-via-Trailer|"+tag+v.blankLimit(tv.MD, expT), "Trailer() at seq %d after the final status: %s", tv.Seq, why)
 			}
 		}
 	}
@@ -898,6 +956,9 @@ func (v *view) oracleC04() {
 	if v.newstream != nil {
 		evs = append(evs, v.newstream)
 	}
+	if sf := v.stubFail(); sf != nil {
+		evs = append(evs, sf) // what a generated server-stream stub returns
+	}
 	for _, ev := range evs {
 		if ev.RSeq == 0 || ev.RSeq < v.ctxSeq || ev.Err == nil {
 			continue
@@ -920,6 +981,8 @@ func (v *view) oracleC04() {
 		case "EOF":
 			if ev.Op == "invoke" {
 				v.fail("C04", "bare-EOF", "after the context ended (%s at seq %d) Invoke returned a bare io.EOF", v.rs.ctxCause, v.ctxSeq)
+			} else if ev.Op == "send" || ev.Op == "closesend" {
+				v.fail("C04", "bare-EOF|stub-"+ev.Op, "after the context ended (%s at seq %d) the %s of a server-stream call made through generated code returned a bare io.EOF, which is all the caller of the stub gets", v.rs.ctxCause, v.ctxSeq, ev.Op)
 			} else if v.single {
 				// single-response stream: io.EOF from the first receive means no response
 				if v.hReturn == nil || v.hReturn.Seq > ev.RSeq || !v.hReturn.Err.IsNil() {
@@ -987,13 +1050,11 @@ func (v *view) oracleC04() {
 		if ev.Side == 'h' && ev.Op == "waitctx" && ev.Note == "NEVER-CANCELLED" && (v.rs.ctxCause == "cancel" || v.rs.ctxCause == "deadline" || v.rs.ctxCause == "harness") {
 			clause := "handler-ctx-never-cancelled"
 			if v.r.Transport == THTTP && v.requestBodyUnread() {
-				// net/http cannot notice a closed connection while a request
-				// body is unread, so a *cancel* cannot reach such a handler; a
+				// net/http's HTTP/1 server notices a closed connection only once
+				// the request body has been read to its end, so a *cancel* does
+				// not reach such a handler (a known finding, see DESIGN.md); a
 				// *deadline* does, through the propagated GRPC-Timeout
-				if v.rs.ctxCause != "deadline" {
-					continue
-				}
-				clause += "|request-body-unread|deadline"
+				clause += "|request-body-unread|" + v.rs.ctxCause
 			}
 			v.fail("C04", clause, "the caller's context ended (%s at seq %d) but the handler's context was still not done when the run was torn down", v.rs.ctxCause, v.ctxSeq)
 		}
